@@ -10,6 +10,7 @@ import (
 	"encoding/json"
 	"fmt"
 	"math/rand"
+	"os"
 	"strings"
 	"sync/atomic"
 	"time"
@@ -355,11 +356,18 @@ func specialLeg(run *vlib.Run) {
 		if i%3 != 0 {
 			return
 		}
-		atomic.StoreInt64(&sc.plan.calls, 0)
+		// a fresh plan: the resource of the old one was released together with
+		// the stopped rerunner above (a released resource invalidates whatever
+		// registers on it later)
+		sc.plan = &plan{fails: sc.plan.fails, res: reactive.NewResource()}
+		t0 := time.Now()
 		if mutation {
 			wsMutate(run, caseIdx, sc, b, zero)
 		} else {
 			wsScenarioCtx(run, caseIdx, sc, b, context.WithValue(context.Background(), spZeroKey{}, zero))
+		}
+		if d := time.Since(t0); d > 3*time.Second && os.Getenv("C16_DEBUG") != "" {
+			fmt.Printf("SLOW special case %d took %v mutation=%v zero=%v onPath=%d fails=%v runs=%d calls=%d\n  %s\n", i, d, mutation, zero, len(sc.onPath), planText(sc.plan), atomic.LoadInt64(&sc.plan.runs), atomic.LoadInt64(&sc.plan.calls), sc.text)
 		}
 	})
 }
